@@ -313,7 +313,17 @@ def create_bound_calls_unit(ctx):
 def run_physical_unit(ctx):
     graph, util, errors, _graph = _real()
     log = []
-    PLAN, PRUNED, OUT, RETRY, OBS, MW, ME, SCHED = (object() for _ in range(8))
+    PLAN, PRUNED, OUT, MW, ME, SCHED = (object() for _ in range(6))
+
+    def RETRY(f):            # the decorator the caller supplied, identified by identity below
+        return f
+
+    def IDENTITY(f):         # stands for uberjob._util.retry.identity (own contract in retry.py)
+        return f
+
+    OBS = Trace()
+    retry_given = ctx.choose(2, "retry-given") == 0
+    observer_given = ctx.choose(2, "observer-given") == 0
 
     class P:
         def __init__(self, tag):
@@ -322,7 +332,16 @@ def run_physical_unit(ctx):
 
     plan, pruned = P("given"), P("pruned")
     out_slot = util.Slot("OUTVAL")
-    LOOKUP = {}
+    # one Call of the plan with a recording bound call: the engine stub below applies the function it was given to this node, so that what
+    # that function does with a call (announce it to the observer given, run the bound call with the retry given) is part of this contract
+    CALLNODE = graph.Call(user_fn, scope=("sc",), stack_frame=None)
+    bc_calls = []
+
+    class BCrec:
+        def run(self, fn, retry):
+            bc_calls.append((fn, retry))
+
+    LOOKUP = {CALLNODE: util.Slot(BCrec())}
     has_out = ctx.choose(2, "output-node") == 0
 
     def cbl(p, o=None):
@@ -333,25 +352,31 @@ def run_physical_unit(ctx):
         log.append(("prune_source_literals", p, inplace, predicate))
         return pruned
 
-    class Null:
-        pass
+    null_observers = []
+
+    class Null(Trace):
+        def __init__(self):
+            Trace.__init__(self)
+            null_observers.append(self)
 
     def rfg(g, fn, *, worker_count=None, max_errors=0, scheduler=None):
         log.append(("rfg", g, fn, worker_count, max_errors, scheduler))
+        if callable(fn):
+            fn(CALLNODE)
         if ctx.choose(2, "engine") == 1:
             raise errors.NodeError(graph.Call(user_fn))
 
     import collections
 
-    env = {"_create_bound_call_lookup_and_output_slot": cbl, "prune_source_literals": prune_source_literals, "identity": "IDENTITY",
+    env = {"_create_bound_call_lookup_and_output_slot": cbl, "prune_source_literals": prune_source_literals, "identity": IDENTITY,
            "NullProgressObserver": Null, "run_function_on_graph": rfg, "Call": graph.Call, "get_full_call_scope": _graph.get_full_call_scope,
            "create_chained_call_error": errors.create_chained_call_error, "NodeError": errors.NodeError,
            "PrepRunPhysical": collections.namedtuple("PrepRunPhysical", "bound_call_lookup output_slot process plan")}
     get(REL, "prep_run_physical").compile_into(env)
     f = get(REL, "run_physical").compile_into(env)
     inplace = ctx.choose(2, "inplace") == 0
-    kind, val = _catch(ctx, lambda: f(plan, inplace=inplace, output_node=(OUT if has_out else None), retry=RETRY, max_workers=MW, max_errors=ME,
-                                      scheduler=SCHED, progress_observer=OBS))
+    kind, val = _catch(ctx, lambda: f(plan, inplace=inplace, output_node=(OUT if has_out else None), retry=(RETRY if retry_given else None), max_workers=MW, max_errors=ME,
+                                      scheduler=SCHED, progress_observer=(OBS if observer_given else None)))
     names = [e[0] for e in log]
     ctx.check("order:slots-built-on-the-given-plan,then-source-literals-pruned,then-engine", bool(names == ["create_lookup", "prune_source_literals", "rfg"]))
     ctx.check("slots-built-for-(plan,output_node)", bool(log[0][1] is plan and log[0][2] is (OUT if has_out else None)), props=["C02"])
@@ -359,6 +384,12 @@ def run_physical_unit(ctx):
     e = log[2] if len(log) > 2 else (None,) * 6
     ctx.check("engine-runs-the-pruned-plan's-graph-with-process", bool(e[1] == pruned.graph and callable(e[2]) and getattr(e[2], "__name__", "") == "process"))
     ctx.check("engine-gets-max_workers,max_errors,scheduler-unchanged", bool(e[3] is MW and e[4] is ME and e[5] is SCHED), props=["C10"])
+    ctx.check("the-function-the-engine-gets-runs-a-call's-bound-call-once-with(node.fn,the-retry-given-or-identity-when-none)",
+              bool(bc_calls == [(user_fn, RETRY if retry_given else IDENTITY)]), props=["C10", "C04", "C06"], info=repr(bc_calls))
+    seen = OBS if observer_given else (null_observers[0] if len(null_observers) == 1 else None)
+    ctx.check("the-function-the-engine-gets-reports-to-the-observer-given(or-one-null-observer-when-none)",
+              bool(seen is not None and [x[0] for x in seen.ev] == ["running", "completed"] and (observer_given or OBS.ev == [])), props=["C15"],
+              info=repr(getattr(seen, "ev", None)))
     if kind == "ret":
         ctx.check("returns-the-output-slot's-value(None-without-output)", bool(val == "OUTVAL" if has_out else val is None), props=["C02"])
     else:
